@@ -157,6 +157,9 @@ type memConn struct {
 	cancelMe       bool           // the accept callback cancels the serve context
 	held           bool           // serve is being held inside RemoteAddr
 	cancelAtAccept bool           // the listener cancels the serve context when handing this connection out
+	slowRead       bool           // the client does not read: a server Write delivers half and blocks until resumed
+	writeBlocked   bool           // a server Write is in progress (blocked on the client)
+	resumes        int            // blocked writes the client has allowed to complete
 }
 
 func (c *memConn) Read(p []byte) (int, error) {
@@ -224,6 +227,25 @@ func (c *memConn) Write(p []byte) (int, error) {
 		w.logLocked(lcEvent{code: evWrite, c: c.id, a: 0})
 		return 0, memErr{c.id, "connection reset by peer"}
 	}
+	if c.slowRead {
+		// zero buffering: the first half is taken, the rest waits for the client to read on
+		half := len(p) / 2
+		c.toClient = append(c.toClient, p[:half]...)
+		c.writeBlocked = true
+		w.cond.Broadcast()
+		for c.resumes == 0 && !c.srvClosed {
+			w.cond.Wait()
+		}
+		c.writeBlocked = false
+		if c.resumes == 0 {
+			w.logLocked(lcEvent{code: evWrite, c: c.id, a: 0})
+			return half, memErr{c.id, "write on closed connection"}
+		}
+		c.resumes--
+		c.toClient = append(c.toClient, p[half:]...)
+		w.logLocked(lcEvent{code: evWrite, c: c.id, a: 1})
+		return len(p), nil
+	}
 	c.toClient = append(c.toClient, p...)
 	w.logLocked(lcEvent{code: evWrite, c: c.id, a: 1})
 	return len(p), nil
@@ -242,6 +264,7 @@ func (c *memConn) Close() error {
 		return memErr{c.id, "close of closed connection"} // as net.Conn does
 	}
 	c.srvClosed = true
+	w.cond.Broadcast()
 	return nil
 }
 
